@@ -295,7 +295,55 @@ func unreachedDeclHistory(r *mon.Rand, k int) ([]piece, string) {
 	return pieces, fmt.Sprintf("unreached-declarations:n=%d", n)
 }
 
+// manyGlobalsHistory: functions loaded by the first piece read and write a global; later pieces declare
+// many more globals (12..48, singly and several per piece, some inside top-level blocks) — more than any
+// spare room the first load may have left — while top level and the functions keep exchanging values
+// through the first global.
+func manyGlobalsHistory(r *mon.Rand, k int) ([]piece, string) {
+	n := []int{12, 15, 16, 17, 24, 33, 48}[k/16%7]
+	base := int64(r.Range(1, 9))
+	var pieces []piece
+	first := []gen.Stmt{
+		decl("mg0", lit(base)),
+		&gen.FuncDecl{F: fn("peek", nil, ret(id("mg0")))},
+		&gen.FuncDecl{F: fn("bump", []string{"d"}, assign("mg0", "+=", id("d")), ret(id("mg0")))},
+		decl("mk", &gen.FuncLit{Body: []gen.Stmt{ret(&gen.FuncLit{Body: []gen.Stmt{assign("mg0", "+=", lit(1)), ret(id("mg0"))}})}}),
+		decl("inner", call(id("mk"))),
+		es(call(id("peek"))),
+	}
+	pieces = append(pieces, piece{Stmts: first})
+	made := 0
+	for made < n {
+		var cur []gen.Stmt
+		per := 1 + r.Intn(4)
+		for j := 0; j < per && made < n; j++ {
+			made++
+			name := fmt.Sprintf("mx%d", made)
+			if r.Chance(1, 5) {
+				// a block variable takes a global slot too
+				cur = append(cur, es(&gen.IfExpr{Cond: bin(">", id("mg0"), lit(-1000)), Then: []gen.Stmt{decl(name, lit(int64(made))), assign("mg0", "+=", id(name))}}))
+			} else {
+				cur = append(cur, decl(name, bin("+", id("mg0"), lit(int64(made)))))
+			}
+		}
+		switch r.Intn(4) {
+		case 0:
+			cur = append(cur, assign("mg0", "=", lit(int64(100+made))), es(call(id("peek"))))
+		case 1:
+			cur = append(cur, es(call(id("bump"), lit(int64(made)))), es(id("mg0")))
+		case 2:
+			cur = append(cur, es(call(id("inner"))), es(&gen.ListLit{Items: []gen.Expr{id("mg0"), call(id("peek"))}}))
+		}
+		pieces = append(pieces, piece{Stmts: cur})
+	}
+	pieces = append(pieces, piece{Stmts: []gen.Stmt{assign("mg0", "=", lit(1000)), es(&gen.ListLit{Items: []gen.Expr{call(id("peek")), call(id("bump"), lit(5)), call(id("inner")), id("mg0")}})}})
+	return pieces, fmt.Sprintf("many-globals:n=%d", n)
+}
+
 func nestedHistory(r *mon.Rand, k int) ([]piece, string) {
+	if k%16 == 11 {
+		return manyGlobalsHistory(r, k)
+	}
 	if k%16 == 15 {
 		return unreachedDeclHistory(r, k)
 	}
